@@ -318,11 +318,11 @@ theorem tryReduce_sound (e : SExpr) (shape : Shape) (env : List (String × Arr V
     (hside : reduceSideOK e (shapesOf env) = true) (i : Idx) (hi : inB shape i = true) :
     (hloDenote h shape env).get i = eval (idxEnv i env) e := by
   cases e with
-  | reduce op v lo hi body =>
-    have hpeel := peel_spec op (.reduce op v lo hi body)
+  | reduce op v lo hi' body =>
+    have hpeel := peel_spec op (.reduce op v lo hi' body)
     simp only [tryReduce] at hr
     simp only [reduceSideOK] at hside
-    generalize peelReduce op (.reduce op v lo hi body) = r at hr hside hpeel
+    generalize peelReduce op (.reduce op v lo hi' body) = r at hr hside hpeel
     obtain ⟨bounds, inner⟩ := r
     simp only at hr hside hpeel
     cases inner with
@@ -341,17 +341,16 @@ theorem tryReduce_sound (e : SExpr) (shape : Shape) (env : List (String × Arr V
         have hmain := reduce_main op arr a env hl ix i shape hi bounds _ hax hrank bounds []
           (fun b hb => by
             have hlen := honce b hb
-            match hf : (varPositions ix 0).filter (·.2 == b.1), hlen with
-            | [(d, w)], _ =>
-              have hmem : (d, w) ∈ (varPositions ix 0).filter (·.2 == b.1) := by rw [hf]; simp
-              obtain ⟨hm1, hm2⟩ := List.mem_filter.mp hmem
-              have hw : w = b.1 := by simpa using hm2
-              subst hw
-              refine ⟨d, rfl, ?_⟩
-              obtain ⟨_, w', hfind⟩ := hbnd d b.1 hm1
-              rw [find_of_nodup_names bounds b hnd hb] at hfind
-              simp only [Option.some.injEq] at hfind
-              rw [hfind])
+            obtain ⟨⟨d, w⟩, hf⟩ := List.length_eq_one_iff.mp hlen
+            have hmem : (d, w) ∈ (varPositions ix 0).filter (·.2 == b.1) := by rw [hf]; simp
+            obtain ⟨hm1, hm2⟩ := List.mem_filter.mp hmem
+            have hw : w = b.1 := by simpa using hm2
+            subst hw
+            refine ⟨d, hf, ?_⟩
+            obtain ⟨_, w', hfind⟩ := hbnd d b.1 hm1
+            rw [find_of_nodup_names bounds b hnd hb] at hfind
+            simp only [Option.some.injEq] at hfind
+            rw [hfind])
           (fun d v hm => by
             obtain ⟨_, w, hfind⟩ := hbnd d v hm
             have hmem := List.mem_of_find?_eq_some hfind
